@@ -94,7 +94,13 @@ def build_archive(spec):
     k = 0
     while i < nd:
         n = max(1, min(cuts[k % len(cuts)], nd - i))
-        folders.append({"coders": chains[(spec.get("chain", 0) + k) % len(chains)], "n": n})
+        fo = {"coders": chains[(spec.get("chain", 0) + k) % len(chains)], "n": n}
+        crcs = spec.get("crcs", "member")
+        if crcs == "folder":  # one CRC for the whole folder, none per member: skipping a member must still advance the decoder
+            fo.update(fcrc=True, scrc="none")
+        elif crcs == "none":
+            fo.update(scrc="none")
+        folders.append(fo)
         i += n
         k += 1
     return RW.build(files, folders, {"header": "raw"}).data, model
@@ -149,6 +155,8 @@ class C09(Check):
             {"how": "py-multi", "names": ["a.txt", "b.bin", "d", "d/x", "d/y.txt", "g"], "cuts": [2, 3, 1], "chain": 1, "seed": 2},
             {"how": "ref", "names": ["a.txt", "d", "d/x", "e", "d/y.txt", "g"], "empty": ["e"], "cuts": [1, 2, 1], "chain": 0, "seed": 3},
             {"how": "ref", "names": ["a.txt", "b.bin", "d/x", "h.dat", "d/sub/z", "g"], "empty": ["h.dat"], "cuts": [5], "chain": 1, "seed": 4},
+            {"how": "ref", "names": ["a.txt", "b.bin", "d/x", "g"], "cuts": [4], "chain": 1, "seed": 5, "crcs": "folder"},
+            {"how": "ref", "names": ["a.txt", "b.bin", "d/x", "g"], "cuts": [2, 2], "chain": 0, "seed": 6, "crcs": "none"},
         ]
         i = 0
         for spec in fixed:
@@ -166,7 +174,7 @@ class C09(Check):
     def strategy(self, env):
         spec = st.builds(
             lambda names, how, empty_idx, cuts, chain, seed, order: {"how": how, "names": _fix_names(names), "empty": [n for j, n in enumerate(names) if j in empty_idx and n not in DIRS],
-                                                                     "cuts": cuts, "chain": chain, "seed": seed, "order": order},
+                                                                     "cuts": cuts, "chain": chain, "seed": seed, "order": order, "crcs": ["member", "member", "folder", "none"][seed % 4]},
             st.lists(st.sampled_from(POOL), min_size=1, max_size=9, unique=True), st.sampled_from(["py-solid", "py-multi", "ref", "ref"]),
             st.sets(st.integers(0, 8), max_size=2), st.lists(st.integers(1, 4), min_size=1, max_size=3), st.integers(0, 5), st.integers(0, 1000),
             st.sampled_from(["tree", "files-first"]))
